@@ -14,7 +14,16 @@
 #include "llbuild/Core/DependencyInfoParser.h"
 #include "llbuild/Core/MakefileDepsParser.h"
 
+#include <algorithm>
 #include <set>
+
+// distinct 64-bit hashes, counted by sort + unique at the end (8 bytes per insertion instead of a tree node)
+struct HashBag {
+  std::vector<uint64_t> v;
+  void insert(uint64_t h) { v.push_back(h); if (v.size() >= (1u << 24)) compact(); }
+  void compact() { std::sort(v.begin(), v.end()); v.erase(std::unique(v.begin(), v.end()), v.end()); }
+  size_t size() { compact(); return v.size(); }
+};
 #include <setjmp.h>
 #include <signal.h>
 #include <sys/mman.h>
@@ -220,7 +229,7 @@ struct Counters {
   std::map<std::string, unsigned long> byClass;
 };
 static Counters C;
-static std::set<uint64_t> distinct;
+static HashBag distinct;
 
 static void checkMkRoundTrip(const MkFile& f, bool ignoreSubsequent) {
   MkRec rec;
